@@ -211,6 +211,8 @@ class Oracles:
             why = b.get(tok, iid)
             if why:
                 b.broken = True
+                if er.type in ("cconv", "sconv"):
+                    self.violate("C12", "exit-order", self.elabel(eid) + "(in factory)," + self.nlabel(actor), f"edge {eid}: {why}")
                 self.violate("C06", "discipline", self.elabel(eid) + "," + self.nlabel(actor), f"edge {eid}: {why}")
         else:
             b.forget(iid)
